@@ -75,6 +75,24 @@ let fn_monitors tab self rip dists (len : int) (tags : nrec option list) : strin
     if not (relay_ok rip r.rflags) then add (Printf.sprintf "findnodes-relay-unsafe tag=%d" (tag_of r));
     if not (entry_of_requested_b tab self dists r) then add (Printf.sprintf "findnodes-record-not-from-requested-distance tag=%d" (tag_of r))
     else if not (from_requested_b tab self dists r) then add (Printf.sprintf "findnodes-dead-entry-returned tag=%d" (tag_of r))) recs;
+  (* the local record is offered for distance 0 (when relay-safe for the asker and there is room), and a request naming a
+     distance whose bucket has live relay-safe entries is not answered with nothing: a record of at most 300 bytes always fits *)
+  let dl = List.map int_n dists in
+  let have_self = List.exists (fun r -> rec_eqb r self) recs in
+  (* when 0 is the first valid distance named, the local record is the first candidate: it is the first record of the reply
+     (later positions can legitimately be lost to the size cut, which stops at the first record that does not fit) *)
+  let first_valid = (match List.filter (fun d -> d <= 256) dl with d :: _ -> Some d | [] -> None) in
+  if first_valid = Some 0 && relay_ok rip self.rflags && not (match recs with r :: _ -> rec_eqb r self | [] -> false)
+     && not (List.exists (fun t -> t = None) tags) then
+    add "findnodes-omits-local-record distance-0-is-the-first-requested-distance-and-the-local-record-is-relay-safe";
+  ignore have_self;
+  if tags = [] then begin
+    let candidate = List.exists (fun d ->
+      if d = 0 then relay_ok rip self.rflags
+      else d <= 256 && (let bucket = try List.nth tab (int_nat (bucket_index (n_ d))) with _ -> [] in
+                        List.exists (fun ((r : nrec), live) -> live && relay_ok rip r.rflags) bucket)) dl in
+    if candidate then add "findnodes-empty-despite-live-entries a-requested-distance-has-live-relay-safe-candidates"
+  end;
   (* invalid and repeated distances contribute nothing: at most one copy of each candidate per distinct valid distance *)
   let distinct = List.sort_uniq compare (List.filter (fun d -> d <= 256) (List.map int_n dists)) in
   let cap = List.fold_left (fun acc d ->
